@@ -121,6 +121,33 @@ def guard_from_bool_call(T, callee_suffix):
     return g
 
 
+def guard_block_device(T):
+    """guard = "the output is a block device".  Recognised by what decides it, not by the name of a helper:
+    a comparison of (a term containing) `st_mode()` with the S_IFBLK pattern, or `file_type().is_block_device()`;
+    as long as a helper named is_block_dev stays a call, the branch on its result is accepted too."""
+    by_name = guard_from_bool_call(T, 'is_block_dev')
+
+    def g(b, bi, t):
+        term, flipped = bool_switch_polarity(b, T, t)
+        res = None
+        if isinstance(term, tuple) and term[0] == 'binop' and term[1] in ('Eq', 'Ne') and has_call(term, 'st_mode'):
+            res = {}
+            for v, tgt in switch_edges(t):
+                val = (v != 0) if v is not None else True
+                if flipped:
+                    val = not val
+                res[tgt] = val if term[1] == 'Eq' else (not val)
+        elif has_call(term, 'is_block_device'):
+            res = {}
+            for v, tgt in switch_edges(t):
+                val = (v != 0) if v is not None else True
+                res[tgt] = (not val) if flipped else val
+        if res is not None:
+            return res
+        return by_name(b, bi, t)
+    return g
+
+
 def guard_from_bool_field(T, field):
     def g(b, bi, t):
         term, flipped = bool_switch_polarity(b, T, t)
